@@ -5,6 +5,7 @@ import (
 	"compress/gzip"
 	"fmt"
 	"io"
+	"os"
 	"regexp"
 	"strconv"
 	"strings"
@@ -183,7 +184,14 @@ func messages(stderr []byte, ownPrefix string) []string {
 }
 
 func runFault(c fcase, fault string, k int64, trace bool) outcome {
-	r := run.Cmd(run.Opt{Env: c.env()}, "faultcmd", c.args(fault, k, trace)...)
+	var r run.Result
+	if c.transient() && fault != "none" {
+		// run.Cmd takes the text of EAGAIN on stderr for a machine out of threads and
+		// runs the command again after pauses
+		r = runTransient(c.env(), "faultcmd", c.args(fault, k, trace)...)
+	} else {
+		r = run.Cmd(run.Opt{Env: c.env()}, "faultcmd", c.args(fault, k, trace)...)
+	}
 	o := outcome{Stream: r.Stdout, Exit: r.Exit, TimedOut: r.TimedOut, Stderr: string(r.Stderr)}
 	if r.Err != nil && r.Exit == -1 && !r.TimedOut {
 		o.Stderr += "\n[wait: " + r.Err.Error() + "]"
@@ -310,6 +318,7 @@ func getReference(c fcase) *reference {
 	}
 	switch {
 	case o.TimedOut:
+		fmt.Fprintf(os.Stderr, "C18 inconclusive: 60 s kill timer hit by the fault-free run faultcmd %s\n", strings.Join(c.args("none", 0, true), " "))
 		r.Timeout = true
 	case o.Infra != "":
 		r.Err = fmt.Errorf("harness infrastructure: %s", o.Infra)
@@ -526,6 +535,7 @@ func checkFault(c fcase) error {
 	}
 	o := runFault(c, c.Fault, c.K, false)
 	if o.TimedOut {
+		fmt.Fprintf(os.Stderr, "C18 inconclusive: 60 s kill timer hit by faultcmd %s\n", strings.Join(c.args(c.Fault, c.K, false), " "))
 		evid.Class("timeout_inconclusive", 1)
 		return nil
 	}
